@@ -123,7 +123,8 @@ def run_split(fn, args_for, lo, hi, calls=None):
             continue
         try:
             tv = Aff(0, 1, (a, b)) if a < b else a
-            res = Folder(fn, calls=calls).run(args_for(tv))
+            # helpers that have no stand-in in `calls` are folded along (a routine may have been split into helpers of its own)
+            res = Folder(fn, calls=calls, inline=True, max_steps=400000).run(args_for(tv))
             out.append(((a, b), res))
         except Split as sp:
             t = sp.args[0]
